@@ -2,6 +2,7 @@
   C18 — Vector is a homogeneous typed list: list semantics, one item type, nothing lost.
 -/
 import NiVerif.Model.Vector
+import NiVerif.Gen.Vector
 
 namespace Props.C18
 open Model.Vector
@@ -358,5 +359,192 @@ theorem eq_spec (a b : V) : eq a b = true ↔ (a.values.length = b.values.length
 -- non-vacuity
 example : ctor [some ⟨.int, 1⟩, some ⟨.bool, 1⟩] "" none = .ok ⟨.int, [⟨.int, 1⟩, ⟨.bool, 1⟩], ""⟩ := by rfl
 example : ctor [some ⟨.bool, 1⟩, some ⟨.int, 1⟩] "" none = .error .TypeError := by rfl
+
+/-! ### list operations commute with `map some` (the generated methods work on `Item`s) -/
+
+theorem scatter_map {α β : Type} (f : α → β) (l : List α) (is : List Int) (vs : List α) :
+    Py.ListSpec.scatter (l.map f) is (vs.map f) = (Py.ListSpec.scatter l is vs).map f := by
+  induction is generalizing l vs with
+  | nil => cases vs <;> simp [Py.ListSpec.scatter]
+  | cons i is ih =>
+    cases vs with
+    | nil => simp [Py.ListSpec.scatter]
+    | cons v vs =>
+      simp only [List.map_cons, Py.ListSpec.scatter]
+      rw [← ih]; congr 1; simp [List.map_set]
+
+theorem setItem_map {α β : Type} (f : α → β) (l : List α) (i : Int) (x : α) :
+    Py.ListSpec.setItem (l.map f) i (f x) = (Py.ListSpec.setItem l i x).map (List.map f) := by
+  unfold Py.ListSpec.setItem
+  simp only [List.length_map]
+  cases Py.ListSpec.normIndex i l.length <;> simp [Except.map, List.map_set]
+
+theorem setSlice_map {α β : Type} (f : α → β) (l : List α) (s e st : Option Int) (xs : List α) :
+    Py.ListSpec.setSlice (l.map f) s e st (xs.map f) = (Py.ListSpec.setSlice l s e st xs).map (List.map f) := by
+  unfold Py.ListSpec.setSlice
+  simp only [List.length_map]
+  cases Py.Slice.indices s e st l.length with
+  | error err => rfl
+  | ok r =>
+    obtain ⟨a, b, c⟩ := r
+    simp only [Except.bind, Except.map]
+    split
+    · simp [List.map_append, List.map_take, List.map_drop]
+    · split
+      · rfl
+      · simp [scatter_map]
+
+theorem eraseIdx_map' {α β : Type} (f : α → β) (l : List α) (j : Nat) :
+    (l.map f).eraseIdx j = (l.eraseIdx j).map f := by
+  rw [List.eraseIdx_eq_take_drop_succ, List.eraseIdx_eq_take_drop_succ]
+  simp [List.map_append, List.map_take, List.map_drop]
+
+theorem delItem_map {α β : Type} (f : α → β) (l : List α) (i : Int) :
+    Py.ListSpec.delItem (l.map f) i = (Py.ListSpec.delItem l i).map (List.map f) := by
+  unfold Py.ListSpec.delItem
+  simp only [List.length_map]
+  cases Py.ListSpec.normIndex i l.length <;> simp [Except.map, eraseIdx_map']
+
+theorem filterIdx_map {α β : Type} (f : α → β) (p : Nat → Bool) (l : List α) (k : Nat) :
+    (((l.map f).zipIdx k).filter fun q => p q.2).map (·.1) = (((l.zipIdx k).filter fun q => p q.2).map (·.1)).map f := by
+  induction l generalizing k with
+  | nil => rfl
+  | cons a as ih =>
+    simp only [List.map_cons, List.zipIdx_cons, List.filter_cons]
+    cases p k <;> simp [ih]
+
+theorem delSlice_map {α β : Type} (f : α → β) (l : List α) (s e st : Option Int) :
+    Py.ListSpec.delSlice (l.map f) s e st = (Py.ListSpec.delSlice l s e st).map (List.map f) := by
+  unfold Py.ListSpec.delSlice
+  simp only [List.length_map]
+  cases Py.Slice.indices s e st l.length with
+  | error err => rfl
+  | ok r =>
+    obtain ⟨a, b, c⟩ := r
+    simp only [Except.map]
+    congr 1
+    exact filterIdx_map f (fun n => !(Py.Slice.rangeList a b c).contains (n : Int)) l 0
+
+theorem insert_map {α β : Type} (f : α → β) (l : List α) (i : Int) (x : α) :
+    Py.ListSpec.insert (l.map f) i (f x) = (Py.ListSpec.insert l i x).map f := by
+  unfold Py.ListSpec.insert
+  simp [List.map_append, List.map_take, List.map_drop]
+
+/-! ### T13: the generated methods of `Vector` are the model's -/
+
+/-- the stored elements of a model vector as the generated methods see them -/
+def itemsOf (v : V) : List Item := v.values.map some
+def outOf (r : Except PyErr V) : Except PyErr (List Item) := r.map itemsOf
+
+@[simp] theorem itemInstOf_some (y : Val) (t : VT) : itemInstOf (some y) t = instOf y t := rfl
+
+theorem any_not_instOf (ys : List Val) (t : VT) :
+    ((ys.map some).any fun x => decide (¬ (itemInstOf x t = true))) = !(ys.all fun x => instOf x t) := by
+  induction ys with
+  | nil => rfl
+  | cons y ys ih =>
+    simp only [List.map_cons, List.any_cons, List.all_cons, itemInstOf_some]
+    rw [ih]; rcases Bool.eq_false_or_eq_true (instOf y t) with h | h <;> simp [h]
+
+theorem map_error {α β : Type} (f : α → β) (e : PyErr) : Except.map f (Except.error e : Except PyErr α) = .error e := rfl
+theorem map_ok {α β : Type} (f : α → β) (a : α) : Except.map f (Except.ok a : Except PyErr α) = .ok (f a) := rfl
+
+/-- the int branch of the generated `__setitem__`: two refusals, then the list's item assignment -/
+theorem setitem_int_core (t : VT) (l : List Item) (i : Int) (a : Arg) :
+    Gen.Vector.setitem t l (.int i) a =
+      if a.isIterable = true ∧ ¬ (a.isStr = true) then .error .TypeError
+      else if ¬ (a.instOf t = true) then .error .TypeError
+      else Py.ListSpec.setItem l i a.asItem := by
+  unfold Gen.Vector.setitem
+  simp only [Index.isSlice, store, Except.bind]
+  by_cases h1 : a.isIterable = true ∧ ¬ (a.isStr = true)
+  · simp [h1]
+  · by_cases h2 : a.instOf t = true <;> simp [h1, h2]
+
+/-- **`v[i] = x`**: the source's `__setitem__` with an int index is the model's `setItem` for a scalar and TypeError for
+    everything else (an Iterable that is not a str, None, …) -/
+theorem gen_setitem_int_eq_model (v : V) (i : Int) (a : Arg) :
+    Gen.Vector.setitem v.vtype (itemsOf v) (.int i) a =
+      match a with
+      | .scalar x _ => outOf (setItem v i x)
+      | _ => .error .TypeError := by
+  rw [setitem_int_core]
+  cases a with
+  | other => simp [Arg.isIterable, Arg.instOf]
+  | iterable xs => simp [Arg.isIterable, Arg.isStr]
+  | scalar x chars =>
+    simp only [Arg.isIterable, Arg.isStr, Arg.instOf, Arg.asItem, setItem, outOf, itemsOf]
+    by_cases hi : instOf x v.vtype = true
+    · rw [setItem_map some v.values i x]
+      cases Py.ListSpec.setItem v.values i x <;> simp [hi, map_error, map_ok, itemsOf]
+    · simp [hi, map_error]
+
+/-- the slice branch of the generated `__setitem__` for an iterable: every item checked, then the list's slice assignment -/
+theorem setitem_slice_core (t : VT) (l : List Item) (s e st : Option Int) (xs : List Item) :
+    Gen.Vector.setitem t l (.slice s e st) (.iterable xs) =
+      if (xs.any fun x => decide (¬ (itemInstOf x t = true))) = true then .error .TypeError
+      else Py.ListSpec.setSlice l s e st xs := by
+  unfold Gen.Vector.setitem
+  simp only [Index.isSlice, Arg.isIterable, Arg.isStr, Arg.toList, Arg.items, forAllItems, Except.bind, Except.map, store]
+  generalize (xs.any fun x => decide (¬ (itemInstOf x t = true))) = b
+  cases b <;> simp
+
+/-- **`v[s:e:st] = iterable of scalars`**: the model's `setSlice` -/
+theorem gen_setitem_slice_eq_model (v : V) (s e st : Option Int) (ys : List Val) :
+    Gen.Vector.setitem v.vtype (itemsOf v) (.slice s e st) (.iterable (ys.map some)) = outOf (setSlice v s e st ys) := by
+  rw [setitem_slice_core, any_not_instOf]
+  simp only [setSlice, outOf, itemsOf]
+  by_cases hall : (ys.all fun x => instOf x v.vtype) = true
+  · simp only [hall, setSlice_map]
+    cases Py.ListSpec.setSlice v.values s e st ys <;> simp [map_error, map_ok, itemsOf]
+  · simp [hall, map_error]
+
+/-- an iterable with an item that is no scalar at all is refused -/
+theorem gen_setitem_slice_nonscalar (v : V) (s e st : Option Int) (xs : List Item) (h : none ∈ xs) :
+    Gen.Vector.setitem v.vtype (itemsOf v) (.slice s e st) (.iterable xs) = .error .TypeError := by
+  have : (xs.any fun x => decide (¬ (itemInstOf x v.vtype = true))) = true := by
+    rw [List.any_eq_true]; exact ⟨none, h, by simp [itemInstOf]⟩
+  rw [setitem_slice_core, if_pos this]
+
+/-- a str, a scalar or any other non-Iterable assigned to a slice is refused -/
+theorem gen_setitem_slice_refuses (v : V) (s e st : Option Int) (a : Arg) (h : ∀ xs, a ≠ .iterable xs) :
+    Gen.Vector.setitem v.vtype (itemsOf v) (.slice s e st) a = .error .TypeError := by
+  unfold Gen.Vector.setitem
+  cases a with
+  | iterable xs => exact absurd rfl (h xs)
+  | other => simp [Index.isSlice, Arg.isIterable]
+  | scalar x chars => by_cases hs : x.ty = .str <;> simp [Index.isSlice, Arg.isIterable, Arg.isStr, hs, Except.bind]
+
+/-- **`v.insert(i, x)`** -/
+theorem gen_insert_eq_model (v : V) (i : Int) (a : Arg) :
+    Gen.Vector.insert v.vtype (itemsOf v) i a =
+      match a with
+      | .scalar x _ => outOf (Model.Vector.insert v i x)
+      | _ => .error .TypeError := by
+  unfold Gen.Vector.insert
+  cases a with
+  | other => simp [Arg.instOf]
+  | iterable xs => simp [Arg.instOf]
+  | scalar x chars =>
+    simp only [Arg.instOf, Model.Vector.insert, outOf, itemsOf]
+    by_cases hi : instOf x v.vtype = true <;> simp [hi, Except.bind, map_error, map_ok, itemsOf, Arg.asItem, insert_map]
+
+/-- **`del v[i]`, `del v[s:e:st]`** -/
+theorem gen_delitem_eq_model (v : V) (i : Int) :
+    Gen.Vector.delitem v.vtype (itemsOf v) (.int i) = outOf (delItem v i) := by
+  simp only [Gen.Vector.delitem, delIndex, delItem, outOf, itemsOf, delItem_map]
+  cases Py.ListSpec.delItem v.values i <;> simp [map_error, map_ok, itemsOf]
+
+theorem gen_delslice_eq_model (v : V) (s e st : Option Int) :
+    Gen.Vector.delitem v.vtype (itemsOf v) (.slice s e st) = outOf (delSlice v s e st) := by
+  simp only [Gen.Vector.delitem, delIndex, delSlice, outOf, itemsOf, delSlice_map]
+  cases Py.ListSpec.delSlice v.values s e st <;> simp [map_error, map_ok, itemsOf]
+
+
+-- non-vacuity of the generated methods
+example : Gen.Vector.setitem .int [some ⟨.int, 1⟩] (.int 0) (.scalar ⟨.bool, 1⟩ []) = .ok [some ⟨.bool, 1⟩] := by rfl
+example : Gen.Vector.setitem .int [some ⟨.int, 1⟩] (.int 0) (.scalar ⟨.str, 1⟩ []) = .error .TypeError := by rfl
+example : Gen.Vector.setitem .int [some ⟨.int, 1⟩, some ⟨.int, 2⟩] (.slice none none (some 2)) (.iterable []) = .error .ValueError := by rfl
+example : Gen.Vector.insert .str [] 5 (.scalar ⟨.str, 1⟩ []) = .ok [some ⟨.str, 1⟩] := by rfl
 
 end Props.C18
